@@ -67,6 +67,26 @@ func (x *fnCtx) newTopState() (*State, *Frame) {
 		fr.names[fv.Name()] = nameBind{v: v, isAddr: isPointer(fv.Type())}
 		st.assume(Ne(v.L[0], IntLit(0)))
 		x.assumeValAllocated(st, v)
+		// the captured variable's cell (and, for a captured struct, its fields) is touched only
+		// by this closure and callees that receive its address (A-CAPTURE)
+		if pt, ok := fv.Type().Underlying().(*types.Pointer); ok {
+			el := pt.Elem()
+			var names []string
+			if _, ok := transparentStruct(el); ok {
+				base, _ := heapKeyStruct(el, nil)
+				for _, l := range layout(el) {
+					names = append(names, base+l.Suffix)
+				}
+			} else {
+				for _, l := range layout(el) {
+					names = append(names, cellHeapName(el)+l.Suffix)
+				}
+			}
+			for i, l := range layout(el) {
+				heapSorts[names[i]] = ArrSort(SInt, l.Sort)
+			}
+			st.stackObjs = append(st.stackObjs, stackObj{ref: v.L[0], names: names})
+		}
 	}
 	// receivers are assumed non-nil (methods are called on live objects)
 	if x.fn.Signature.Recv() != nil && len(x.fn.Params) > 0 {
@@ -673,7 +693,7 @@ func (x *fnCtx) invoke(st *State, fr *Frame, in ssa.Instruction, c *ssa.CallComm
 	if x.eng.cfg.Layers["safety"] {
 		x.addVC(st, x.curShort(fr), "nil", x.ord(fr, in), "iface", Ne(recv.Tag(), IntLit(0)), "method call on nil interface ("+c.Method.Name()+")", x.eng.posStr(in.Pos()))
 	}
-	st.assume(Ne(recv.Tag(), IntLit(0)))
+	x.assumeSafe(st, Ne(recv.Tag(), IntLit(0)))
 	// statically known dynamic type: dispatch
 	if tv, ok := recv.Tag().IntVal(); ok {
 		if dt, ok2 := tagTypes[tv]; ok2 {
@@ -721,7 +741,7 @@ func (x *fnCtx) invoke(st *State, fr *Frame, in ssa.Instruction, c *ssa.CallComm
 	}
 	if strings.HasPrefix(pkgPath, repoPrefix) {
 		x.eng.logAbs("%s: invoke of %s without interface contract: heap havoced", x.short, key)
-		x.havocAllHeap(st, "invoke "+key)
+		x.havocAllHeap(st, "invoke "+key, append([]*Val{recv}, args...)...)
 	} else {
 		x.eng.logAbs("%s: invoke of external %s without contract: result havoced, slice arguments havoced", x.short, key)
 		x.havocArgs(st, args)
